@@ -42,3 +42,20 @@ def run(ctx):
     suites.apply_pred(ctx, "C19-huge-impl-only", "c19_pred", houts,
                       lambda k, i: enc(suites.is_autoenc(hprogs[i])) + " " + houts[k][i],
                       lambda k, i: {"program": repr(hprogs[i])[:300], "impl": houts[k][i][:1000]})
+
+    # allocation failure inside the quoters (fault injection through _testcapi.set_nomemory;
+    # expected outputs come from the extracted model)
+    big = ["a" * 20000 + " " * 3000, "\u00e9" * 1500, "%41" * 3000 + "\x00" * 2000, "a" * 8191 + " ", " " * 2731 + "ab"]
+    nmax = 40 if ctx.quick else 120
+    oreqs = [("quote", [i, s]) for i in (0, 3, 4) for s in big]
+    exp = core.run_sharded("model", ctx.overlay, [core.call_line("quote@c", *a) for _, a in oreqs])
+    sweeps = core.run_all(ctx, [core.call_line("oom_sweep", a[0], a[1], nmax) for _, a in oreqs], kinds=("py", "c"))
+    for k, o in sweeps.items():
+        ok = core.eval_pred(ctx, "c19_oom_pred", [exp[i] + " " + o[i] for i in range(len(oreqs))])
+        hits = sum(x.count("EMemoryError") for x in o)
+        ctx.count("C19-oom-quoters", len(oreqs) * (nmax + 1), {"oom"}, hist={"memory_errors_raised_" + k: hits})
+        core.record_failures(ctx, "C19-oom-quoters", "c19_oom_pred", ok,
+                             lambda m, k=k, o=o: {"backend": k, "quoter": oreqs[m][1][0], "input_len": len(oreqs[m][1][1]),
+                                                  "outcomes": [x[:80] for x in o[m].split(" ")[:nmax + 3]]})
+        if k == "c" and hits == 0:
+            ctx.notes.append("allocation-fault injection raised no MemoryError on the compiled backend (injection ineffective?)")
